@@ -372,6 +372,13 @@ class Fn:
                 if len(R['s']) != 1 or R['s'][0][0] != [arg] or R['s'][0][1][0] != 'use' or op_local(R['s'][0][1][1]) is None:
                     continue
                 v = op_local(R['s'][0][1][1])
+                # a `?` inside the inlined body returns through `from_residual`: that is an `Err`, i.e. the Break arm
+                for c_i in range(n0):
+                    C = blocks[c_i]
+                    ct = C['t']
+                    if not C['cu'] and ct['k'] == 'call' and ct.get('t') == r_i and ct['d'] == [v] and ct['fn'].endswith('::from_residual'):
+                        blocks.append({'cu': False, 's': [], 't': {'k': 'goto', 't': arms[1]}})
+                        C['t'] = dict(ct, t=len(blocks) - 1)
                 for d_i in list(preds.get(r_i, ())):
                     D = blocks[d_i]
                     st = None
@@ -396,6 +403,100 @@ class Fn:
                         continue
                     blocks.append(nb)
                     D['s'] = [x for x in D['s'] if x is not st]
+                    D['t'] = dict(D['t'], t=len(blocks) - 1)
+        # the same for a value matched directly (`ready!(helper(cx))`: `match v { Ready(t) => t, Pending => return Pending }`):
+        # a return site that stores a known variant jumps to that variant's arm; blocks in between that only assign locals
+        # (drop flags, copies) are carried along
+        facts = self.facts
+        n1 = len(blocks)
+        preds = {}
+        cpreds = {}
+        for pi in range(n1):
+            P = blocks[pi]
+            if P['cu']:
+                continue
+            if P['t']['k'] == 'goto':
+                preds.setdefault(P['t']['t'], []).append(pi)
+            elif P['t']['k'] == 'call' and isinstance(P['t'].get('t'), int) and P['t']['t'] >= 0:
+                cpreds.setdefault(P['t']['t'], []).append(pi)
+
+        def only_locals(B):
+            return all(len(x[0]) == 1 for x in B['s'])
+
+        def sources(r_i, v, depth=0, carried=None):
+            """[(kind, block index, carried statements)] of the definitions of local v that reach block r_i through blocks that
+            only assign locals: kind 'aggr' (statement) or 'residual' (a from_residual call)"""
+            carried = carried or []
+            out = []
+            for c_i in cpreds.get(r_i, ()):
+                ct = blocks[c_i]['t']
+                if ct['d'] == [v] and ct['fn'].endswith('::from_residual'):
+                    out.append(('residual', c_i, carried, None))
+            for d_i in preds.get(r_i, ()):
+                D = blocks[d_i]
+                st = None
+                clobber = False
+                for x in reversed(D['s']):
+                    if x[0] == [v]:
+                        st = x
+                        break
+                    if x[0][0] == v:
+                        clobber = True
+                        break
+                if clobber:
+                    continue
+                if st is not None:
+                    if st[1][0] == 'aggr' and st[1][1] == 'adt':
+                        out.append(('aggr', d_i, carried, st))
+                    continue
+                if depth < 3 and only_locals(D):
+                    out += sources(d_i, v, depth + 1, [list(x) for x in D['s']] + carried)
+            return out
+        for j in range(n1):
+            J = blocks[j]
+            if J['cu'] or J['t']['k'] != 'sw' or len(J['s']) != 1 or J['s'][0][1][0] != 'discr' or len(J['s'][0][1][1]) != 1:
+                continue
+            a = J['s'][0][1][1][0]
+            adt = norm(J['s'][0][1][2])
+            vs = facts.variants(adt) if facts is not None else None
+            if not vs or op_local(J['t']['o']) != J['s'][0][0][0]:
+                continue
+            idx_of = dict((nm, i) for i, nm in vs.items())
+
+            def arm(name):
+                tg = [t2 for val, t2 in J['t']['ts'] if val == idx_of[name]]
+                return tg[0] if tg else J['t']['else']
+            brk = None
+            if adt.endswith('task::Poll') and 'Ready' in idx_of:
+                hop = arm('Ready')
+                for _ in range(4):
+                    HB = blocks[hop]
+                    if HB['t']['k'] == 'call' and HB['t']['fn'].endswith('Try>::branch') and isinstance(HB['t'].get('t'), int) and HB['t']['t'] >= 0:
+                        S2 = blocks[HB['t']['t']]
+                        if S2['t']['k'] == 'sw':
+                            brk = dict((val, t2) for val, t2 in S2['t']['ts']).get(1)
+                        break
+                    if HB['t']['k'] == 'goto':
+                        hop = HB['t']['t']
+                        continue
+                    break
+            for r_i in list(preds.get(j, ())):
+                R = blocks[r_i]
+                if len(R['s']) != 1 or R['s'][0][0] != [a] or R['s'][0][1][0] != 'use' or op_local(R['s'][0][1][1]) is None:
+                    continue
+                v = op_local(R['s'][0][1][1])
+                for kind, d_i, carried, st in sources(r_i, v):
+                    D = blocks[d_i]
+                    if kind == 'residual':
+                        if brk is None:
+                            continue
+                        blocks.append({'cu': False, 's': carried + [list(R['s'][0])], 't': {'k': 'goto', 't': brk}})
+                        D['t'] = dict(D['t'], t=len(blocks) - 1)
+                        continue
+                    vname = str(st[1][2]).rsplit('::', 1)[-1]
+                    if norm(str(st[1][2]).rsplit('::', 1)[0]) != adt or vname not in idx_of:
+                        continue
+                    blocks.append({'cu': False, 's': carried + [list(R['s'][0])], 't': {'k': 'goto', 't': arm(vname)}})
                     D['t'] = dict(D['t'], t=len(blocks) - 1)
         self._succ = None
         self._pred = None
@@ -1555,9 +1656,17 @@ def presentations(sw):
         return
     op, a, b = c
     inv = {s: (not l) for s, l in sw.labels.items()}
-    yield Switch('cmp', ('bin', _NEG_OP[op], a, b), inv, sw.bi)
-    yield Switch('cmp', ('bin', _SWAP_OP[op], b, a), dict(sw.labels), sw.bi)
-    yield Switch('cmp', ('bin', _NEG_OP[_SWAP_OP[op]], b, a), inv, sw.bi)
+    forms = [(op, a, b, dict(sw.labels)), (_NEG_OP[op], a, b, inv), (_SWAP_OP[op], b, a, dict(sw.labels)), (_NEG_OP[_SWAP_OP[op]], b, a, inv)]
+    for f_op, fa, fb, lab in forms[1:]:
+        yield Switch('cmp', ('bin', f_op, fa, fb), lab, sw.bi)
+    # against the constant 0 of an unsigned type `x != 0` is `x > 0` and `x == 0` is `x <= 0` (and mirrored)
+    uz = {'Ne': 'Gt', 'Eq': 'Le', 'Gt': 'Ne', 'Le': 'Eq'}
+    zu = {'Ne': 'Lt', 'Eq': 'Ge', 'Lt': 'Ne', 'Ge': 'Eq'}
+    for f_op, fa, fb, lab in forms:
+        if is_unsigned_zero(fb) and f_op in uz:
+            yield Switch('cmp', ('bin', uz[f_op], fa, fb), lab, sw.bi)
+        elif is_unsigned_zero(fa) and f_op in zu:
+            yield Switch('cmp', ('bin', zu[f_op], fa, fb), lab, sw.bi)
 
 
 def edges_where(facts, fn, subject_pred, label_pred):
